@@ -343,6 +343,7 @@ func main() {
 		path, dest, memo int
 		specs            []spec
 		base             int64 // ordinal of the first case (for deterministic replay choice)
+		sample           bool  // record one case of this job in the evidence
 	}
 	var jobs []job
 	var total int64
@@ -361,7 +362,7 @@ func main() {
 					if hi > len(ss) {
 						hi = len(ss)
 					}
-					jobs = append(jobs, job{pi, di, mi, ss[lo:hi], total})
+					jobs = append(jobs, job{pi, di, mi, ss[lo:hi], total, lo == 0 && di == 2 && mi == 0})
 					total += int64(hi - lo)
 				}
 			}
@@ -538,7 +539,7 @@ func main() {
 					}
 				}
 				rep := where(i)
-				rep["forwarded_payload"] = g.Event.Data.Wire()
+				rep["forwarded_payload(keys sorted)"] = wireSorted(g.Event.Data)
 				rep["forwarded_to"] = g.Dest
 				report(fmt.Sprintf("%s|path=%s|key=%s|value=%s", kind, path, cls, fam), order, what+fmt.Sprintf(" [path %s, destination %s, %s]", path, dest, memo), rep)
 			}
@@ -560,7 +561,7 @@ func main() {
 					if gv.Kind != want.Kind && !(isInt(gv) && isInt(want)) && !(isFloat(gv) && isFloat(want)) {
 						kind = "field-type-altered(" + describeKind(want) + "->" + describeKind(gv) + ")"
 					}
-					fail(kind, cf, fmt.Sprintf("client field %q sent as %s was forwarded as %s (expected %s)", cf.f.Key, cf.f.Val.Wire(), gv.Wire(), want.Canon()))
+					fail(kind, cf, fmt.Sprintf("client field %q sent as %s was forwarded as %s (expected %s)", cf.f.Key, cf.f.Val.Wire(), wireSorted(gv), want.Canon()))
 				}
 			}
 			var extra []string
@@ -573,12 +574,12 @@ func main() {
 			if len(extra) > 0 {
 				fail("field-added", cases[i][s.focus], fmt.Sprintf("forwarded payload has field(s) %q the client did not send and that are neither reserved metadata nor configured attributes", extra))
 			}
-			if v, ok := first[addedAttr]; ok && !client[addedAttr] && (dest != "local" || v.Kind != codec.KStr || v.S != addedAttrVal) {
-				fail("configured-attribute-wrong", cases[i][s.focus], fmt.Sprintf("configured attribute %s forwarded as %s on destination %s", addedAttr, v.Wire(), dest))
+			// where the configured attribute is added is C06's subject; if it is there it must be the configured value
+			if v, ok := first[addedAttr]; ok && !client[addedAttr] && (v.Kind != codec.KStr || v.S != addedAttrVal) {
+				fail("configured-attribute-wrong", cases[i][s.focus], fmt.Sprintf("configured attribute %s forwarded as %s on destination %s", addedAttr, wireSorted(v), dest))
 			}
 		}
-		if r.Count("sampled") < 4 && jb.path < 2 && jb.dest == 2 && len(sent) > 3 {
-			r.Add("sampled", 1)
+		if jb.sample && len(jb.specs) > 3 {
 			r.Sample(map[string]any{"case": where(3), "forwarded": byCaseWire(byCase[3])})
 		}
 	})
@@ -621,13 +622,38 @@ func main() {
 	r.Finish()
 }
 
+// wireSorted renders a value with its wire formats but maps in key order: Refinery re-encodes memoised maps in
+// Go-map order, so the raw wire order differs from run to run (never compared, and kept out of the replays).
+func wireSorted(v codec.Value) string { return sortedCopy(v).Wire() }
+
+func sortedCopy(v codec.Value) codec.Value {
+	switch v.Kind {
+	case codec.KArr:
+		out := v
+		out.Arr = make([]codec.Value, len(v.Arr))
+		for i, e := range v.Arr {
+			out.Arr[i] = sortedCopy(e)
+		}
+		return out
+	case codec.KMap:
+		out := v
+		out.Map = make([]codec.KV, len(v.Map))
+		for i, kv := range v.Map {
+			out.Map[i] = codec.KV{K: kv.K, V: sortedCopy(kv.V)}
+		}
+		sort.SliceStable(out.Map, func(a, b int) bool { return out.Map[a].K.Canon() < out.Map[b].K.Canon() })
+		return out
+	}
+	return v
+}
+
 func isInt(v codec.Value) bool   { return v.Kind == codec.KInt || v.Kind == codec.KUint }
 func isFloat(v codec.Value) bool { return v.Kind == codec.KF32 || v.Kind == codec.KF64 }
 
 func byCaseWire(s []pipeline.Sent) []string {
 	var out []string
 	for _, x := range s {
-		out = append(out, x.Dest+": "+x.Event.Data.Wire())
+		out = append(out, x.Dest+": "+wireSorted(x.Event.Data))
 	}
 	return out
 }
